@@ -61,6 +61,12 @@ func TestC05Rapid(t *testing.T) {
 				w.bulkPropose(rt, w.bridges[w.ids[0]], rapid.SampledFrom([]int{30, 45, 70, 120, 257, 300}).Draw(rt, "bulkN"))
 				c.Class("burst-of-30-or-more-pending-outputs")
 			}
+			if rapid.IntRange(0, 24).Draw(rt, "restart") == 0 {
+				// the chain is exported and a new one started from that genesis: what was final stays final, what was
+				// pending keeps its window (the recorded proposal times survive; heights need not)
+				w.restart(rt)
+				c.Class("genesis-round-trip-inside-history")
+			}
 			var preMust, preMay bool
 			st := w.step(rt)
 			now := w.e.Ctx.BlockTime()
